@@ -236,7 +236,8 @@ let split_top (s : string) (sep : char) : string list =
 
 let inner (s : string) (skip : int) : string = String.sub s skip (String.length s - skip - 1)
 let float_of_bits (h : string) : Float64.t = Float64.of_float (Int64.float_of_bits (Int64.of_string ("0x" ^ h)))
-let bits_of_float (f : Float64.t) : string = float_bits (Float64.to_float f)
+let bits_of_float (f : Float64.t) : string =
+  let x = Float64.to_float f in if Float.is_nan x then "NaN" else float_bits x
 
 let ora : (string, unit) Hashtbl.t = Hashtbl.create 64
 let ora_match : (string * string, string) Hashtbl.t = Hashtbl.create 64
@@ -254,6 +255,7 @@ let load_oracle (s : string) =
     | ["u"; a; b] -> Hashtbl.replace ora_upper a b
     | _ -> ()) (String.split_on_char ';' s)
 
+let case_tz = ref ""
 let stdlib_oracle : stdlib = {
   fmt_float = (fun f -> Some (str_of_string (go_format_float (Float64.to_float f))));
   parse_float = parse_float_oracle;
@@ -277,7 +279,8 @@ let stdlib_oracle : stdlib = {
   getenv = (fun _ -> None);
   tz_fields = (fun t ->
     let b = bigz_of_z t in
-    if BigZ.gt (BigZ.abs b) (BigZ.of_string "100000000000") then None else Some (utc_fields t));
+    if !case_tz <> "" && !case_tz <> "UTC" then None
+    else if BigZ.gt (BigZ.abs b) (BigZ.of_string "100000000000") then None else Some (utc_fields t));
 }
 
 let rec enc_value (v : value) : string =
@@ -295,7 +298,7 @@ let rec enc_value (v : value) : string =
 let rec dec_value (s : string) : value =
   match s.[0] with
   | 'i' -> VInt (z_of_string (String.sub s 1 (String.length s - 1)))
-  | 'f' -> VFloat (float_of_bits (String.sub s 1 16))
+  | 'f' -> if s = "fNaN" then VFloat (Float64.of_float Float.nan) else VFloat (float_of_bits (String.sub s 1 16))
   | 's' -> VStr (str_of_string (unhex (String.sub s 1 (String.length s - 1))))
   | 'b' -> VBool (s.[1] = '1')
   | 'n' -> VNull | 'v' -> VVoid
@@ -399,6 +402,7 @@ let default_fuel = ref 200000
 
 let run_history_case c =
   load_oracle (field c "ora");
+  case_tz := field c "tz";
   let src = str_of_string (unhex (field c "script")) in
   let objs = Array.of_list (List.map dec_host (if field c "objs" = "" then [] else split_top (field c "objs") ';')) in
   let ops = if field c "ops" = "" then ["prepare:opt"; "exec:0"] else String.split_on_char ';' (field c "ops") in
